@@ -160,6 +160,28 @@ def make_program(kind, seed, extra=()):
                 fid = "X%d" % nf[0]
                 defs["flib"][fid] = f
                 crec["f"] = fid
+    if kind in ("inh", "dyn") and rng.random() < 0.7:
+        # the formulas of these worlds read r / s / g / u wherever they stand; a model-level
+        # reference of that name makes the read succeed where no space-level one shadows it
+        # (otherwise more than half of all elements end in a NameError before the later ops run)
+        names = [("r", 40), ("s", 50), ("g", 70), ("u", 90)]
+        if kind == "dyn":
+            # also names of ItemSpace parameters: inside an instance the argument shadows the
+            # model-level reference (exporter.py:406-432: references are copied first, then
+            # the parameters are assigned), in the base space the reference is read
+            names += [("p", 20), ("pp", 60), ("q", 30)]
+        for nm, v in names:
+            if nm not in defs["grefs"] and rng.random() < 0.75:
+                defs["grefs"][nm] = {"v": ["int", v, [], ""]}
+        if kind == "dyn":
+            # the object-valued reference of P is also defined in its child spaces
+            refs_at = {tuple(q): rs for q, rs in defs["refs"]}
+            # (not in relative mode: a relative reference to something outside the root of a
+            #  nested ItemSpace is rejected by modelx when the instance is created)
+            if "o" in refs_at[("P",)] and refs_at[("P",)]["o"]["mode"] != "relative":
+                for q in (("P", "C"), ("P", "Q")):
+                    if q in refs_at and rng.random() < 0.7:
+                        refs_at[q]["o"] = copy.deepcopy(refs_at[("P",)]["o"])
     # --- restriction to the export subset (see ASSUMPTIONS in eng_export.py) ---
     for f in defs["flib"].values():
         if "pfrefs" not in extra and f.get("style") == "pf":
@@ -330,7 +352,10 @@ def enumerate_queries(w, rng):
                 if not args:
                     continue
                 spell = ("call", "sub", "kw")[i % 3]
-                item = _call_spelled(space, args, spell, names)
+                try:
+                    item = _call_spelled(space, args, spell, names)
+                except Exception:
+                    continue          # the model itself cannot create this instance
                 walk(item, path, steps + [["i", "", args, spell, names]], depth + 1)
         for nm, ch in space.named_spaces.items():
             if dyn:
